@@ -663,3 +663,39 @@ def redirect_call(fw, call_node, helper, rule="W9-R-std-call"):
     """R-std: a call `PATH(args)` of a function Verus cannot be given a spec for goes through a trusted
     prelude wrapper with the same arguments whose body is the original call"""
     fw.replace(call_node["func_span"][0], call_node["func_span"][1], "crate::verif_prelude::" + helper, rule)
+
+
+def outline_closure_body(ctx, fw, cnode, name, params, args, rtype, mode="V", requires=(), ensures=(), tags=(), unit=None, ret="res"):
+    """W5 (closure form): the body block of a closure becomes a free function `name`; the closure only calls it.
+    Used to put the arithmetic inside `iter.try_fold(init, |acc, x| { .. })` under contract although the
+    iterator adapter itself cannot be specified."""
+    if not cnode["body_is_block"]:
+        raise WeaveError("%s: outline_closure_body %s: closure body is not a block" % (fw.rel, name))
+    s, e = cnode["body_span"][0] + 1, cnode["body_span"][1] - 1
+    top = fw.byid[cnode["fn"]]
+    while top["fn"] >= 0:
+        top = fw.byid[top["fn"]]
+    im = fw._impl_of(top)
+    target = (im or top)["span"][1]
+    unit = unit or "%s::%s" % (fw.rel[:-3].replace("/mod", "").replace("/", "::"), name)
+    pre = "\nverus!{\n%sfn %s(%s) -> (%s: %s)\n" % ("#[verifier::external_body]\n" if mode == "T" else "", name, params, ret, rtype)
+    fw.move(s, e, target, pre=pre, suf="\n}\n} // verus!\n", rule="W5", what="body of a closure in %s as %s" % (fw.fn_qualname(top), name), left=" %s(%s) " % (name, args))
+    utags = set(tags)
+    ftags = utags - {"C12"}
+    if requires:
+        fw.insert(s, "    requires\n", rule="W10")
+        for r in requires:
+            ed = fw.insert(s, "        %s,\n" % r.strip().rstrip(","), rule="W10")
+            ctx.clause(unit, "req", r, ftags, ed)
+    if ensures:
+        fw.insert(s, "    ensures\n", rule="W10")
+        for c in ensures:
+            if isinstance(c, str):
+                c = (c, ftags)
+            ed = fw.insert(s, "        %s,\n" % c[0].strip().rstrip(","), rule="W10")
+            ctx.clause(unit, "ens", c[0], set(c[1]), ed, name=(c[2] if len(c) > 2 else None))
+            utags |= set(c[1])
+    fw.insert(s, "{\n", rule="W5")
+    ctx.units[unit] = {"unit": unit, "file": fw.rel, "fn": name, "mode": mode, "tags": sorted(utags), "span": [s, e],
+                       "line": fw.line_of(s), "end_line": fw.line_of(e), "segment_of": fw.fn_qualname(top)}
+    return unit
